@@ -74,7 +74,7 @@ for e in ("explore_prefix", "explore_segment", "nearest_unknown", "nearest_right
 MATRIX[("F", "deserialize", "payload")] = ["leaf_flag_even", "leaf_flag_odd", "no_header"]
 
 CELLS = sorted((s, e, a, b) for (s, e, a), bs in MATRIX.items() for b in bs)
-PROBES = [f"{s}:{e}:{a}:{b}" for s, e, a, b in CELLS] + ["bad-call-inside-open-batch", "bad-call-on-pruning-handle", "bad-call-from-inside-another-call", "bad-call-with-every-node-withheld", "twin-compared"]
+PROBES = [f"{s}:{e}:{a}:{b}" for s, e, a, b in CELLS] + ["wrong-length-key-right-after-another-trees-failed-walk", "bad-call-inside-open-batch", "bad-call-on-pruning-handle", "bad-call-from-inside-another-call", "bad-call-with-every-node-withheld", "twin-compared"]
 FAULTS = ["bad-request", "batch-abort", "batch-abort-base", "crash-reopen", "restart-regenerated-counts"]
 RULE = (
     f"each run: one of the scenarios H (HexaryTrie, prune on/off, batches), B (BinaryTrie + branch helpers), S "
@@ -450,6 +450,16 @@ class SW(BadMixin, c14.SWorld):
             p = self.proof
             return [smt.root_hash, dict(db.raw()), (p.value, p.branch) if p is not None else None]
 
+        if arg == "key" and isinstance(x, bytes) and 1 <= len(x) <= 32 and len(x) != ks and self.ev % 2 == 0:
+            # just before, somebody else's tree — one for which this very key has the right
+            # size — failed to answer for it because its store had lost its nodes
+            t2 = SparseMerkleTree(key_size=len(x))
+            t2.db.clear()
+            try:
+                t2.exists(x)
+            except Exception:
+                pass
+            self.st.probe("wrong-length-key-right-after-another-trees-failed-walk")
         return self.judge_bad(cmd, fn, snap)
 
     def final_state(self):
